@@ -361,6 +361,8 @@ func longRun(c *harness.Ctx, id string, r *rand.Rand, epochs int) {
 				kind = "reorg-before-attestation" // the reorg arrives before the slot's attestation job has run
 			case 5:
 				kind = "reorg-during-attestation" // the reorg arrives while an attestation job of the epoch is in flight
+			case 6:
+				kind = "reorg-twice" // two reorg events in quick succession: their duty refreshes overlap
 			}
 			if kind != "normal" {
 				desc.Kinds[E] = kind
@@ -410,6 +412,19 @@ func longRun(c *harness.Ctx, id string, r *rand.Rand, epochs int) {
 			dep[E] = depOf(E) + 1
 			sendHead(s)
 			c.Count("reorgs_withdrawing_duties", 1)
+		}
+		if kind == "reorg-twice" && s%spe == reorgPos {
+			env.Duties.Attester[E] = genDuties(E, 0, 0)
+			for k := 0; k < 2; k++ {
+				dep[E] = depOf(E) + 1
+				ev := &apiv1.HeadEvent{Slot: phase0.Slot(s)}
+				binary.BigEndian.PutUint64(ev.Block[:8], s+1+uint64(k)<<32)
+				binary.BigEndian.PutUint32(ev.PreviousDutyDependentRoot[:4], depOf(E))
+				binary.BigEndian.PutUint32(ev.CurrentDutyDependentRoot[:4], depOf(E+1))
+				env.Bus.Emit("head", ev) // no settling in between: the second refresh starts while the first is under way
+			}
+			env.Settle()
+			c.Count("overlapping_duty_refreshes", 1)
 		}
 		if reorgNow && kind == "reorg-next" {
 			env.Duties.Attester[E+1] = genDuties(E+1, 0, 0)
